@@ -36,7 +36,11 @@ CLAUSE = {
     30: "shared object table malformed", 31: "shared object table: first-page entries do not cover the first page's objects", 32: "shared object table: group length",
     33: "shared object table: first shared object number / location", 34: "shared object table: an object of the shared section is not shared among later pages only",
     35: "a page needs an object that is neither in its own run, nor in the shared object table, nor before the first page (document-level part)",
-    112: "an object the first page needs is a member of an object stream that lies at or after /E",
+    112: "an object the first page needs is a member of an object stream that also holds outline objects and lies at or after /E",
+    312: "an object the first page needs is a member of an object stream (without outline users) that lies at or after /E",
+    335: "a page needs a member of an object stream (no document-level user) that is neither in the page's run, nor in the shared object table, nor before the first page",
+    412: "an object the first page needs is also reached from the first page's own /Thumb and lies at or after /E (with the thumbnails)",
+    435: "a page needs an object that is also reached from the page's own /Thumb and is neither in the page's run, nor in the shared object table, nor before the first page",
     212: "an object the first page needs is also reached from /Outlines and lies at or after /E (with the outlines)",
     235: "a page needs an object that is also reached from a document-level key and is neither in the page's run, nor in the shared object table, nor before the first page",
     135: "a page needs a member of an object stream that is neither in the page's run, nor in the shared object table, nor before the first page",
@@ -166,8 +170,69 @@ def lin_doc(rng, npages, feat):
         c[b"Extra"] = D(K=both)
     d.objects[cat.n] = c
     d.trailer = {b"Root": cat}
-    if "info" in feat:
+    if "info" in feat or "share:info" in feat:
         d.trailer[b"Info"] = d.add(D(Title=Str(b"t"), Producer=Str(b"verif")))
+    # sharing shapes: an indirect object the FIRST page needs (colour space array / font / ExtGState) is also used by
+    # another kind of user; every pair (first page, other user kind) of calculateLinearizationData's classification
+    for sh in sorted(f for f in feat if f.startswith("share:")):
+        kind = sh[6:]
+        which = rng.choice(["cs", "font", "gs"])
+        if which == "cs":
+            x = d.add([N("CalGray"), D(WhitePoint=[Real("0.9505"), 1, Real("1.089")], Gamma=Real("2.2"))])
+            rkey, skey = b"ColorSpace", b"CSx"
+        elif which == "font":
+            x = d.add(D(Type=N("Font"), Subtype=N("Type1"), BaseFont=N("Times-Roman")))
+            rkey, skey = b"Font", b"Fx"
+        else:
+            x = d.add(D(Type=N("ExtGState"), LW=3, CA=Real("0.5")))
+            rkey, skey = b"ExtGState", b"GSx"
+
+        def use_in_page(pref):
+            pg = d.objects[pref.n]
+            res = pg[b"Resources"]
+            if isinstance(res, Ref):
+                res = d.objects[res.n]
+            res[rkey] = dict(res.get(rkey, {}))
+            res[rkey][skey + kind.encode().replace(b"-", b"")] = x
+        use_in_page(page_refs[0])
+        other = page_refs[-1] if npages > 1 else page_refs[0]
+        if kind == "thumb-other":        # the /Thumb image of a DIFFERENT page (own page when there is only one)
+            t = d.add(Stream(D(Width=1, Height=1, ColorSpace=x if which == "cs" else N("DeviceGray"), BitsPerComponent=8, Aux=x), b"\x80"))
+            d.objects[other.n][b"Thumb"] = t
+        elif kind == "thumb-own":
+            t = d.add(Stream(D(Width=1, Height=1, ColorSpace=N("DeviceGray"), BitsPerComponent=8, Aux=x), b"\x40"))
+            d.objects[page_refs[0].n][b"Thumb"] = t
+        elif kind == "later-page" and npages > 1:
+            use_in_page(other)
+        elif kind == "later-annot" and npages > 1:
+            a = d.add(D(Type=N("Annot"), Subtype=N("Square"), Rect=[0, 0, 5, 5], AuxRes=x))
+            d.objects[other.n][b"Annots"] = list(d.objects[other.n].get(b"Annots", [])) + [a]
+        elif kind == "outlines":
+            if b"Outlines" not in c:
+                ol = d.add(None)
+                it = d.add(D(Title=Str(b"only"), Parent=ol, Dest=[page_refs[0], N("Fit")]))
+                d.objects[ol.n] = D(Type=N("Outlines"), First=it, Last=it, Count=1)
+                c[b"Outlines"] = ol
+            first_item = d.objects[c[b"Outlines"].n][b"First"]
+            d.objects[first_item.n][b"AuxRes"] = x
+        elif kind == "names":
+            c[b"Names"] = d.add(D(Dests=d.add(D(Names=[Str(b"a"), [page_refs[0], N("Fit")]])), AuxRes=x))
+        elif kind == "acroform":
+            c[b"AcroForm"] = d.add(D(Fields=[], DR={rkey: {skey: x}}, DA=Str(b"/F1 0 Tf")))
+        elif kind == "openaction":
+            c[b"OpenAction"] = d.add(D(S=N("GoTo"), D=[page_refs[0], N("Fit")], AuxRes=x))
+        elif kind == "threads":
+            th = d.add(None)
+            bd = d.add(None)
+            d.objects[bd.n] = D(Type=N("Bead"), T=th, N=bd, V=bd, P=page_refs[0], R=[0, 0, 10, 10])
+            d.objects[th.n] = D(Type=N("Thread"), F=bd, I=D(Title=Str(b"t"), AuxRes=x))
+            c[b"Threads"] = [th]
+        elif kind == "viewerprefs":
+            c[b"ViewerPreferences"] = d.add(D(HideToolbar=True, AuxRes=x))
+        elif kind == "other-root-key":
+            c[b"PieceInfo"] = d.add(D(App=D(Private=x)))
+        elif kind == "info":
+            d.objects[d.trailer[b"Info"].n][b"AuxRes"] = x
     if "trailer-string" in feat:
         # a direct string value in the trailer dictionary (as in qtest good9.pdf / bad37.pdf)
         d.trailer[b"QTest"] = Str(b"potato" * rng.choice([1, 3]))
@@ -177,6 +242,9 @@ def lin_doc(rng, npages, feat):
 FEATURES = ["shared", "private", "thumbs", "all-thumbs", "outlines", "use-outlines", "pagemode-other", "acroform", "threads", "viewerprefs",
             "openaction", "names", "metadata", "info", "two-level", "no-inherit", "inherit-res", "indirect-res", "multi-content", "annots",
             "page-and-other", "shared-action", "trailer-string"]
+SHARE_KINDS = ["thumb-other", "thumb-own", "later-page", "later-annot", "outlines", "names", "acroform", "openaction", "threads", "viewerprefs",
+               "other-root-key", "info"]
+FEATURES += ["share:" + k for k in SHARE_KINDS]
 
 
 def gen_inputs(rng, n, wd):
@@ -347,6 +415,90 @@ def trailer_has_direct_string(data):
     return bool(m and re.search(rb"/[A-Za-z0-9#]+ [(<](?!<)", m.group(1)))
 
 
+def py_xref_check(data):
+    """Python-side oracle for outputs above the size limit of the extracted reader: every in-use entry of the first-page
+    and of the main cross-reference STREAM points exactly at `<num> 0 obj` (ISO 32000-1 7.5.8; Flate + PNG-up predictor)."""
+    probs = []
+    m = re.search(rb"startxref\n(\d+)\n%%EOF\n?$", data[-64:])
+    if not m:
+        return ["no startxref at the end"]
+    off, seen = int(m.group(1)), 0
+    while off is not None and seen < 4:
+        seen += 1
+        hm = re.match(rb"(\d+) 0 obj\n<<(.*?)>>\nstream\n", data[off:off + 2000], re.S)
+        if not hm or b"/Type /XRef" not in hm.group(2):
+            return probs + ["no cross-reference stream at %d" % off]
+        dct = hm.group(2)
+        W = [int(x) for x in re.search(rb"/W \[ (\d+) (\d+) (\d+) \]", dct).groups()]
+        ln = int(re.search(rb"/Length (\d+)", dct).group(1))
+        size = int(re.search(rb"/Size (\d+)", dct).group(1))
+        im = re.search(rb"/Index \[ (\d+) (\d+) \]", dct)
+        first, cnt = (int(im.group(1)), int(im.group(2))) if im else (0, size)
+        raw = data[off + hm.end():off + hm.end() + ln]
+        if b"/FlateDecode" in dct:
+            try:
+                raw = zlib.decompress(raw)
+            except Exception as e:
+                return probs + ["xref stream at %d does not inflate: %s" % (off, e)]
+            cols = int(re.search(rb"/Columns (\d+)", dct).group(1))
+            rows, prev = [], bytes(cols)
+            for i in range(0, len(raw), cols + 1):
+                ft, row = raw[i], raw[i + 1:i + 1 + cols]
+                if ft != 2:
+                    return probs + ["unexpected PNG filter %d" % ft]
+                prev = bytes((a + b) & 255 for a, b in zip(row, prev))
+                rows.append(prev)
+            raw = b"".join(rows)
+        es = sum(W)
+        if len(raw) != es * cnt:
+            probs.append("xref stream at %d: %d bytes for %d entries of %d" % (off, len(raw), cnt, es))
+        for k in range(min(cnt, len(raw) // es)):
+            e = raw[k * es:(k + 1) * es]
+            ty = int.from_bytes(e[:W[0]], "big") if W[0] else 1
+            f1 = int.from_bytes(e[W[0]:W[0] + W[1]], "big")
+            if ty == 1:
+                head = b"%d 0 obj" % (first + k)
+                if data[f1:f1 + len(head)] != head:
+                    probs.append("entry of object %d in the xref stream at %d says offset %d, where the file has %r (field width /W[1] = %d)" % (first + k, off, f1, data[f1:f1 + 12], W[1]))
+        pm = re.search(rb"/Prev (\d+)", dct)
+        off = int(pm.group(1)) if pm else None
+    return probs
+
+
+def boundary_docs(chk, wd, runjob_fn):
+    """documents whose first-page section ends within one hint-stream length below 2^16 (thorough: also 2^24): content length swept in
+    steps of 30 bytes across the window in which (offset of the last first-page object) < 2^k <= (that offset + hint stream length),
+    found by a calibration run; written with --linearize --object-streams=generate (xref streams), streams uncompressed"""
+    quick = chk.tier == "quick"
+    out = []
+    for power in ([16] if quick else [16, 24]):
+        target = 1 << power
+        for npg in ([1] if quick or power > 16 else [1, 2, 3]):
+            def mk(pad):
+                d = filecheck.padded_doc(pad, npages=npg)
+                p = os.path.join(wd, "bnd%d-%d-%d.pdf" % (power, npg, pad))
+                open(p, "wb").write(pdfgen.write_classic(d)[0])
+                return p
+            p0 = target - 3000
+            cal = os.path.join(wd, "bndcal%d-%d.pdf" % (power, npg))
+            rc, so, se = common.run_qpdf(["--static-id", "--linearize", "--object-streams=generate", "--compress-streams=n", mk(p0), cal])
+            if rc != 0:
+                continue
+            data = open(cal, "rb").read()
+            hm = re.search(rb"/H \[ (\d+) (\d+) \] /O \d+ /E (\d+)", data[:400])
+            if not hm:
+                continue
+            h1, E = int(hm.group(2)), int(hm.group(3))
+            starts = [m.start() + 1 for m in re.finditer(rb"\n\d+ 0 obj\n", data[:E])]
+            last = max(starts)
+            # wanted positions of the last first-page object in the output: from 60 below 2^k to 60 above 2^k + hint length
+            for want in range(target - 60, target + h1 + 90, 30):
+                pad = p0 + (want - last)
+                out.append({"name": "bnd%d-%d-%d" % (power, npg, pad), "path": mk(pad), "kind": "boundary-2^%d" % power, "npages": npg,
+                            "features": ["pad=%d" % pad, "last first-page object near 2^%d%+d" % (power, want - target)], "id": "none"})
+    return out
+
+
 def signature_of(err, rep, xref_stream, encrypted=False, data=b""):
     c, a, b = err
     if c == 1 and encrypted and not xref_stream and trailer_has_direct_string(data):
@@ -515,6 +667,27 @@ def build_jobs(chk, wd):
         inputs.append(inp)
         for c in pcfgs:
             jobs.append((inp, c))
+    # sharing shapes: one document per (first page, other user kind) pair, with and without object streams; plain documents
+    # (no outlines unless the shape is the outline one) so that a misplacement is not absorbed by the recorded object-stream findings
+    for k in SHARE_KINDS:
+        for np_ in ([3] if quick else [1, 2, 3, 6]):
+            name = "shape-%s-%d" % (k, np_)
+            feat = {"share:" + k, "private"}
+            d = lin_doc(_random.Random(name), np_, feat)
+            p = os.path.join(wd, name + ".pdf")
+            open(p, "wb").write(pdfgen.write_classic(d)[0])
+            inp = {"name": "probe-" + name, "path": p, "kind": "generated-sharing-shape", "npages": np_, "features": sorted(feat), "id": "none"}
+            inputs.append(inp)
+            for cfg in [("none", "disable", []), ("none", "generate", [])] + ([] if quick else [("none", "preserve", ["--compress-streams=n"]), ("aes256", "disable", [])]):
+                jobs.append((inp, cfg))
+    for inp in boundary_docs(chk, wd, None):
+        inp = dict(inp, name="probe-" + inp["name"])
+        inputs.append(inp)
+        jobs.append((inp, ("none", "generate", ["--compress-streams=n"])))
+        if not quick:
+            jobs.append((inp, ("aes256", "generate", ["--compress-streams=n"])))
+            if inp["kind"] == "boundary-2^16":
+                jobs.append((inp, ("none", "generate", [])))
     g9 = os.path.join(filecheck.CORPUS_DIR, "good9.pdf")
     if os.path.exists(g9):
         jobs.append(({"name": "good9.pdf", "path": g9, "kind": "corpus", "npages": None, "features": [], "id": "?"}, ("aes128", "disable", [])))
@@ -547,7 +720,7 @@ def part_files(chk, runner):
         rc, so, se = common.run_qpdf(args)
         return rc, se, out, args
     res = common.par_map(runjob, range(len(jobs)), workers=4)
-    done = []
+    done, big = [], []
     for i, (rc, se, out, args) in enumerate(res):
         inp, cfg = jobs[i]
         txt = se.decode("latin-1")
@@ -562,7 +735,22 @@ def part_files(chk, runner):
             continue
         if rc in (0, 3) and os.path.exists(out) and os.path.getsize(out) <= MAXSIZE:
             done.append((i, rc, out, args))
+        elif rc in (0, 3) and os.path.exists(out) and inp["kind"].startswith("boundary-2^"):
+            big.append((i, rc, out, args))
     reps = lin_read([o for _, _, o, _ in done])
+    # outputs above the reader's size limit (2^24 boundary): Python-side xref-stream oracle + qpdf's own checker
+    for i, rc, out, args in big:
+        inp, cfg = jobs[i]
+        data = open(out, "rb").read()
+        probs = py_xref_check(data)
+        c = common.run_qpdf((["--password=o"] if cfg[0] != "none" else []) + ["--check-linearization", out], timeout=300)
+        if c[0] != 0 or b"no linearization errors" not in c[1]:
+            probs.append("qpdf --check-linearization: exit %d %s" % (c[0], c[2].decode("latin-1")[-200:]))
+        if probs:
+            chk.violation({"kind": "property-fails-on-implementation", "part": "boundary-large", "why": "cross-reference stream entries of a linearized output do not point at their objects",
+                           "input": inp["path"], "features": inp["features"], "argv": ["qpdf"] + args, "problems": probs[:4]}, signature="lin:xref-entry-wrong")
+        os.unlink(out)
+    chk.count("linearized-outputs-large", len(big), set((jobs[i][0]["name"], cfg_name(jobs[i][1])) for i, _, _, _ in big))
 
     # qpdf's own checker and its reading of the tables
     def qcheck(t):
@@ -573,7 +761,8 @@ def part_files(chk, runner):
         return r1, r2
     qres = common.par_map(qcheck, done, workers=4)
     # classification model (Lin/Parts.v) on the unencrypted outputs whose tables decode
-    pj = [k for k, ((i, rc, out, args), rep) in enumerate(zip(done, reps)) if jobs[i][1][0] == "none" and rep.get("page_table") is not None]
+    pj = [k for k, ((i, rc, out, args), rep) in enumerate(zip(done, reps)) if jobs[i][1][0] == "none" and rep.get("page_table") is not None
+          and not jobs[i][0]["kind"].startswith("boundary")]
     pouts = common.run_lines(runner, ["linparts " + done[k][2] for k in pj], shards=4)
     tie_parts = []
     n_parts_objs = 0
@@ -607,7 +796,11 @@ def part_files(chk, runner):
         # --check-linearization accepts the file without warning
         c_rc, c_so, c_se = r1
         if c_rc != 0 or b"no linearization errors" not in c_so or b"WARNING" in c_se:
-            if not (inp["kind"] == "corpus" and rc == 3 and c_rc == 3 and b"linearization" not in c_se.lower()):
+            # a damaged corpus input (write exit 3) may leave streams that cannot be decoded (e.g. a broken encryption dictionary: the hint
+            # stream is then unreadable for qpdf); what is not tolerated is a complaint about the linearization data or the file structure
+            tolerated = (inp["kind"] == "corpus" and rc == 3 and c_rc == 3 and
+                         not re.search(rb"mismatch|not linearized|file is damaged|xref|compressed|hint table", c_se + c_so))
+            if not tolerated:
                 chk.violation(dict(case, kind="property-fails-on-implementation", part="check-linearization", why="qpdf --check-linearization does not accept the file silently",
                                    check_exit=c_rc, stdout=c_so.decode("latin-1")[-300:], stderr=c_se.decode("latin-1")[-400:]),
                               signature=("lin:encrypt-trailer-string-damaged" if cfg[0] != "none" and not xref_stream and trailer_has_direct_string(data) and rep["errors"] and rep["errors"][0][0] == 1
@@ -664,7 +857,7 @@ def run(chk):
     chk.cov["rule"] = ("linearized-outputs: (input, configuration) pairs; inputs = generated documents (1..40 pages; features drawn from shared/private resources, thumbnails, "
                        "outlines with and without /PageMode /UseOutlines, AcroForm, threads, viewer preferences, open action, names, metadata, info, two-level page tree with "
                        "inherited attributes, indirect resources, several content streams, link annotations; original /ID of length none/0/5/16/32), pdfgen.page_doc documents, "
-                       "2-page documents padded to the 2^16 offset boundary, repository corpus files; configurations = {5 encryption settings} x {disable,preserve,generate} x "
+                       "2-page documents padded to the 2^16 offset boundary, sharing-shape documents (an object of the first page also used by another page's thumbnail / its own thumbnail / a later page / a later page's annotation / outlines / names / AcroForm / open action / threads / viewer preferences / another catalog key / info), 1..3-page documents whose last first-page object is swept in 30-byte steps across [2^16 - 60, 2^16 + hint length + 60] (thorough: also 2^24, judged by a Python-side xref-stream oracle), repository corpus files; configurations = {5 encryption settings} x {disable,preserve,generate} x "
                        "{7 stream-data settings}; each written by the real `qpdf --linearize --static-id`, read by the extracted Annex F checker, by qpdf --check-linearization and "
                        "--show-linearization; non-trivial = write completed and output <= 150 kB, distinct by (input, configuration). "
                        "bitio: random writeBits/flush and getBits sequences (widths 0..40, values beyond the width) on the real BitWriter/BitStream, the model and the Annex F field reader")
